@@ -10,6 +10,8 @@
 #include "mxv.h"
 #include "wire.h"
 #include "sched.h"
+#include "c09_seeds.h"
+#include "testkeys/RSA/2048_RSA_CA.h"
 #include <pthread.h>
 #include <unistd.h>
 #include <errno.h>
@@ -21,8 +23,8 @@
 static int thorough;
 static int is_tsan;
 
-enum { B_FULL = 0, B_RESUME_A, B_RESUME_B, B_RESUME_A2, B_ROTATE, B_RESUME_A_NOEMS, B_RESUME_UNKNOWN, B_FULL_P384, B_DELKEY, B_CRL_FLUSH, B_OCSP_RELOAD, B_NBODY };
-static const char *bname[] = { "full", "resume(A)", "resume(B)", "resume(A,2nd client)", "rotate-ticket-keys", "resume(A, extended master secret off)", "resume(unknown id)", "full(client enables only secp384r1)", "delete-the-only-ticket-key", "insert-a-crl-then-remove-all", "load-a-new-OCSP-response" };
+enum { B_FULL = 0, B_RESUME_A, B_RESUME_B, B_RESUME_A2, B_ROTATE, B_RESUME_A_NOEMS, B_RESUME_UNKNOWN, B_FULL_P384, B_DELKEY, B_CRL_FLUSH, B_OCSP_RELOAD, B_CRL_AUTH, B_NBODY };
+static const char *bname[] = { "full", "resume(A)", "resume(B)", "resume(A,2nd client)", "rotate-ticket-keys", "resume(A, extended master secret off)", "resume(unknown id)", "full(client enables only secp384r1)", "delete-the-only-ticket-key", "insert-a-crl-then-remove-all", "load-a-new-OCSP-response", "authenticate-the-cached-CRL" };
 
 typedef struct { const char *name; int ver, kx; uint16_t suite; int tickets; int prefill; int nthreads; int body[SR_MAXT]; int maxbound_tsan, maxbound; int cb; } scen_t;
 static const scen_t scens[] = {
@@ -51,6 +53,8 @@ static const scen_t scens[] = {
        "whenever the server application gets a new OCSP response" as the API documents */
     { "ocsp-stapling-handshake-vs-response-refresh", V_TLS12, KX_RSA, 0, 0, 0, 2, { B_FULL, B_OCSP_RELOAD }, 1, 2, 3 },
     { "ocsp-stapling-handshake-x2-vs-response-refresh", V_TLS12, KX_RSA, 0, 0, 0, 3, { B_FULL, B_FULL, B_OCSP_RELOAD }, 1, 1, 3 },
+    /* cb 4: a CRL of the RSA-2048 test CA is in the global cache; two threads run the refresh step psX509AuthenticateCRL on it */
+    { "crl-authenticate-cached-crl-x2", V_TLS12, KX_PSK, 0, 0, 0, 2, { B_CRL_AUTH, B_CRL_AUTH }, 1, 2, 4 },
     /* cb 2: the tickets' key has been rotated out before the threads start; the callback of each resuming session loads
        it again (what the API documents the callback for) */
     { "ticket-callback-loads-missing-key-x2", V_TLS12, KX_RSA, 0, 1, 0, 2, { B_RESUME_A, B_RESUME_B }, 1, 2, 2 },
@@ -69,6 +73,8 @@ static void hook_lock(void *m) { sr_before_lock(m); }
 static void hook_unlock(void *m) { sr_after_unlock(m); }
 
 static unsigned char ocsp_resp[600];
+static psX509Cert_t *crl_ca;
+static psX509Crl_t *crl_cached;
 static void body_connect(int id, sslSessionId_t *sid)
 {
     world_t w;
@@ -197,6 +203,12 @@ static void *thread_main(void *arg)
         snprintf(thr_out[id], sizeof(thr_out[id]), "ocsp%d", a);
         break;
     }
+    case B_CRL_AUTH:
+    {
+        int a = psX509AuthenticateCRL(crl_ca, crl_cached, NULL);
+        snprintf(thr_out[id], sizeof(thr_out[id]), "auth%d", a);   /* (the mark itself is read by the main thread after the joins) */
+        break;
+    }
     case B_CRL_FLUSH:
     {
         /* an (empty, unauthenticated) CRL object goes into the cache and the cache is flushed */
@@ -291,6 +303,15 @@ static void run_execution(int si, const unsigned char *prefix, int nprefix)
     {
         matrixSslSetSessionTicketCallback(base.s[1].keys, ticket_cb_accept_cached);
     }
+    else if (S->cb == 4)
+    {
+        if (psX509ParseCert(NULL, RSA2048CA, sizeof(RSA2048CA), &crl_ca, 0) < 0
+            || psX509ParseCRL(NULL, &crl_cached, (unsigned char *) c09s_crl_rsa2048_der, sizeof(c09s_crl_rsa2048_der)) < 0
+            || psCRL_Insert(crl_cached) < 0)
+        {
+            _exit(46);
+        }
+    }
     else if (S->cb == 3)
     {
         static unsigned char first[300];
@@ -339,10 +360,14 @@ static void run_execution(int si, const unsigned char *prefix, int nprefix)
     env_lock_hook = NULL;
     env_unlock_hook = NULL;
     TR->outcome[0] = 0;
+    if (S->cb == 4)
+    {
+        snprintf(TR->outcome, sizeof(TR->outcome), "mark%d ", crl_cached ? (int) crl_cached->authenticated : -1);
+    }
     for (i = 0; i < S->nthreads; i++)
     {
         size_t l = strlen(TR->outcome);
-        snprintf(TR->outcome + l, sizeof(TR->outcome) - l, "%sT%d:%s", i ? " " : "", i, thr_out[i]);
+        snprintf(TR->outcome + l, sizeof(TR->outcome) - l, "%sT%d:%s", (i && TR->outcome[l ? l - 1 : 0] != ' ') ? " " : "", i, thr_out[i]);
     }
     TR->done = 1;
 }
